@@ -134,6 +134,8 @@ func verifString(tag string, max int) string {
 	return string(b)
 }
 
+func verifASCII(tag string, max int) string { return verifString(tag, max) }
+
 func verifChoice(tag string, n int) int { return int(verifPop(tag, "Choice").Value) }
 
 func verifAssume(c bool) {
